@@ -2,7 +2,7 @@ SPECIFICATION Spec
 CONSTANTS
   PairVals <- MC_PairVals
   LoopVals <- MC_LoopVals
-  MaxItems = 3
+  MaxItems = 2
   MaxCols = 2
   MaxRows = 2
   Bug = "none"
